@@ -740,6 +740,27 @@ def decode(v, genclasses):
     return V.value_to_ty(v)
 
 
+def line_result(fs, val, genclasses=frozenset()):
+    """Verdict / inferred type of one call line from its failures and the annotated Value of the call node."""
+    codes = [f["code"] for f in fs]
+    bad = []
+    for f in fs:
+        if f["code"] == "incompatible_argument":
+            m = _MSG.search(f["message"])
+            bad.append(m.group(1) if m else "?")
+    other = sorted(set(c for c in codes if c not in ("incompatible_argument", "incompatible_call")))
+    verdict = "CALL" if "incompatible_call" in codes else "OK:" + ",".join(bad)
+    try:
+        tterm = decode(val, genclasses) if val is not None else None
+        ty = V.ty_sexp(tterm) if val is not None else "NOVALUE"
+    except V.Unencodable:
+        ty, tterm = "UNENC", None
+    except Exception as e:
+        ty, tterm = "EXC:%s" % type(e).__name__, None
+    return {"verdict": verdict, "type": ty, "term": tterm, "other": other, "sol": None,
+            "msgs": [f["message"][:160] for f in fs][:3]}
+
+
 def run_batch(items):
     """items: list of (callable dict, [calls]). Returns per (i, j): dict(verdict, type, sol) from real pyanalyze, and the module."""
     import ast
@@ -785,26 +806,7 @@ def run_batch(items):
                 sol = "UNENC"
             res[(i, j)]["sol"] = sol
             continue
-        codes = [f["code"] for f in fs]
-        bad = []
-        for f in fs:
-            if f["code"] == "incompatible_argument":
-                m = _MSG.search(f["message"])
-                bad.append(m.group(1) if m else "?")
-        other = sorted(set(c for c in codes if c not in ("incompatible_argument", "incompatible_call")))
-        if "incompatible_call" in codes:
-            verdict = "CALL"
-        else:
-            verdict = "OK:" + ",".join(bad)
-        try:
-            ty = V.ty_sexp(decode(val, genclasses)) if val is not None else "NOVALUE"
-            tterm = decode(val, genclasses) if val is not None else None
-        except V.Unencodable:
-            ty, tterm = "UNENC", None
-        except Exception as e:
-            ty, tterm = "EXC:%s" % type(e).__name__, None
-        res[(i, j)] = {"verdict": verdict, "type": ty, "term": tterm, "other": other, "sol": None,
-                       "msgs": [f["message"][:160] for f in fs][:3]}
+        res[(i, j)] = line_result(fs, val, genclasses)
     return res, mod
 
 
@@ -882,6 +884,379 @@ def really_call(mod, i, c, call):
         return "ok", K(*a, **kw)
     except Exception as e:
         return "exc", type(e).__name__
+
+
+
+# ------------------------------------------------------------------ annotation spelling layer
+# C06 quantifies over annotated functions: HOW the declared type is written must not matter. Every declared type can be
+# rendered in several spellings, and every callable in several callee forms (so that both signature routes of pyanalyze
+# are exercised: the def node / functions.py for nested defs, the runtime object / arg_spec.py for everything else).
+SPELLINGS = ["plain", "quoted", "partial", "late", "alias", "strtv"]   # + "future": plain text in a
+FORMS = ["def", "method", "classmethod", "staticmethod", "nested", "lib"]  # `from __future__ import annotations` module
+STRTV = {"TB": "TBs", "TC": "TCs"}
+STRTV_DEFS = "TBs = TypeVar('TBs', bound=\"int\")\nTCs = TypeVar('TCs', \"int\", \"str\")\n"
+
+
+def _leaf_names(t, acc):
+    """Class / NewType names occurring as leaves of a type term (what a forward reference can stand for)."""
+    k = t[0]
+    if k == "typed" and V.CLASSES[t[1]] is not type(None):
+        acc.add(ty_src(t))
+    elif k == "newtype":
+        acc.add(ty_src(t))
+    elif k == "subclass":
+        acc.add(ty_src(("typed", t[1])))
+    elif k in ("generic", "seq"):
+        for x in t[2]:
+            _leaf_names(x, acc)
+    elif k == "union":
+        for x in t[1]:
+            _leaf_names(x, acc)
+    elif k in ("many", "annotated"):
+        _leaf_names(t[1], acc)
+    return acc
+
+
+def ty_src_q(t, q, tv=lambda n: n, top=True):
+    """ty_src with every leaf class name INSIDE a typing construct rendered by q(name) (e.g. individually quoted)."""
+    k = t[0]
+    if k == "tvar":
+        return tv(TVNAMES[t[1]])
+    if k == "typed":
+        n = ty_src(t)
+        return n if (top or n == "None") else q(n)
+    if k == "newtype":
+        return ty_src(t) if top else q(ty_src(t))
+    if k == "annotated":
+        return "Annotated[%s, 'meta']" % ty_src_q(t[1], q, tv, False)
+    if k == "union":
+        return "NoReturn" if not t[1] else "Union[%s]" % ", ".join(ty_src_q(x, q, tv, False) for x in t[1])
+    if k == "subclass":
+        return "type[%s]" % q(ty_src(("typed", t[1])))
+    if k == "generic":
+        if V.CLASSES[t[1]] is tuple:
+            return "tuple[%s, ...]" % ty_src_q(t[2][0], q, tv, False)
+        return "%s[%s]" % (ty_src(("typed", t[1])), ", ".join(ty_src_q(x, q, tv, False) for x in t[2]))
+    if k == "seq":
+        if not t[2]:
+            return "tuple[()]"
+        return "tuple[%s]" % ", ".join(("Unpack[tuple[%s, ...]]" % ty_src_q(m[1], q, tv, False)) if m[0] == "many"
+                                       else ty_src_q(m, q, tv, False) for m in t[2])
+    return ty_src(t)  # any, known
+
+
+def spell(t, mode, aliases=None):
+    """Source text of the annotation for the declared type t in the given spelling. `alias` registers a module-level
+    alias definition in `aliases` (name -> text) and returns the alias name."""
+    if mode in ("plain", "future"):
+        return ty_src(t)
+    if mode == "quoted":
+        return '"%s"' % ty_src(t)
+    if mode == "strtv":
+        return ty_src_q(t, lambda n: n, lambda n: STRTV.get(n, n))
+    if mode == "partial":
+        if t[0] in ("typed", "newtype") and ty_src(t) != "None":
+            return '"%s"' % ty_src(t)
+        return ty_src_q(t, lambda n: '"%s"' % n)
+    if mode == "late":
+        if t[0] in ("typed", "newtype") and ty_src(t) != "None":
+            return '"Late_%s"' % ty_src(t)
+        return ty_src_q(t, lambda n: '"Late_%s"' % n)
+    if mode == "alias":
+        text = ty_src_q(t, lambda n: '"%s"' % n)
+        name = "AL%d" % len(aliases)
+        for k_, v_ in aliases.items():
+            if v_ == text:
+                return k_
+        aliases[name] = text
+        return name
+    raise ValueError(mode)
+
+
+def header_spelled(params, mode, aliases):
+    parts, seen_star = [], False
+    npo = sum(1 for p in params if p[1] == "po")
+    for i, (n, k, d, a) in enumerate(params):
+        ann = ": " + spell(a, mode, aliases)
+        if k == "ko" and not seen_star:
+            parts.append("*")
+            seen_star = True
+        if k == "vp":
+            parts.append("*" + n + ann)
+            seen_star = True
+        elif k == "vk":
+            parts.append("**" + n + ann)
+        else:
+            parts.append(n + ann + ("" if d is None else " = " + obj_src(d)))
+        if k == "po" and i == npo - 1:
+            parts.append("/")
+    return ", ".join(parts)
+
+
+def _T(c):
+    return ("typed", V.CID[c] if not isinstance(c, int) else c)
+
+
+def _opt(t):
+    return ("union", [t, ("known", ("none",))])
+
+
+def spell_base():
+    """Hand-picked callables that always go through the spelling stream: optional / container / mapping / bounded and
+    constrained type-variable / variadic parameters over names that can be forward references, with calls on both
+    sides of the declared type."""
+    A_, B_ = ("typed", V.CID[U.A]), ("typed", V.CID[U.B])
+    I, S = ("typed", G.INT), ("typed", G.STR)
+    col = ("inst", V.CID[U.Color], 0)
+    ie = ("inst", V.CID[U.IE], 0)
+    out = []
+
+    def add(params, ret, tmpl, calls):
+        out.append(({"kind": "plain", "params": params, "ret": ret, "tmpl": tmpl}, calls))
+
+    add([("a", "pk", None, _opt(I))], _opt(I), ("param", "a"),
+        [([("int", 1)], []), ([("none",)], []), ([("str", "a")], []), ([], [("a", ("flt", 0))])])
+    add([("a", "pk", None, ("generic", G.LIST, [("typed", V.CID[U.Color])]))], I, ("const", ("int", 0)),
+        [([("list", [col])], []), ([("list", [("int", 1)])], []), ([("list", [])], []), ([("tuple", [col])], [])])
+    add([("a", "pk", None, ("generic", G.DICT, [S, ("typed", V.CID[U.IE])]))], I, ("const", ("int", 0)),
+        [([("dict", [("str", "k")], [ie])], []), ([("dict", [("str", "k")], [("int", 1)])], []),
+         ([("dict", [("int", 1)], [ie])], [])])
+    add([("a", "pk", None, ("tvar", 2))], ("tvar", 2), ("param", "a"),
+        [([("int", 1)], []), ([("bool", 1)], []), ([("str", "a")], []), ([("none",)], [])])
+    add([("a", "pk", None, ("tvar", 3)), ("b", "pk", None, ("tvar", 3))], ("tvar", 3), ("param", "a"),
+        [([("int", 1), ("int", 2)], []), ([("str", "a"), ("str", "b")], []), ([("int", 1), ("str", "a")], []),
+         ([("flt", 0), ("flt", 1)], [])])
+    add([("a", "pk", ("none",), _opt(I)), ("b", "vp", None, _opt(("typed", V.CID[U.Color])))], I, ("const", ("int", 0)),
+        [([("int", 2)], []), ([("str", "a")], []), ([("none",), ("none",), col], []), ([("none",), ("none",), ("int", 3)], []),
+         ([], [])])
+    add([("a", "ko", None, ("subclass", V.CID[U.A])), ("b", "vk", None, ("union", [I, ("typed", V.CID[U.Color])]))],
+        ("subclass", V.CID[U.A]), ("param", "a"),
+        [([], [("a", ("cls", V.CID[U.B]))]), ([], [("a", ("cls", G.INT))]), ([], [("a", ("cls", V.CID[U.A])), ("x", col)]),
+         ([], [("a", ("cls", V.CID[U.A])), ("x", ("str", "a"))])])
+    add([("a", "po", None, ("seq", G.TUPLE, [I, ("typed", V.CID[U.IE])])), ("b", "pk", None, ("newtype", 0, G.INT))],
+        ("newtype", 0, G.INT), ("param", "b"),
+        [([("tuple", [("int", 1), ie]), ("int", 2)], []), ([("tuple", [("int", 1), ("int", 1)]), ("int", 2)], []),
+         ([("tuple", [("int", 1), ie]), ("bool", 1)], [])])
+    return out
+
+
+UPPER = {0: ("any",), 1: ("any",), 2: ("typed", G.INT), 3: ("union", [("typed", G.INT), ("typed", G.STR)])}
+
+
+def upper_violation(c, land):
+    """A necessary condition independent of any solver: with every type variable replaced by its declared bound (the union
+    of its constraints; Any when unrestricted) each landed argument must still be a member, or an error has to be
+    reported. Returns (param, object, type) of a violating argument or None."""
+    for p in c["params"]:
+        if not tvars_of(p[3]):
+            continue
+        t = subst_term(p[3], UPPER)
+        for o in landed_objs(land[p[0]]):
+            try:
+                oo = V.py_to_obj(o)
+            except V.Unencodable:
+                continue
+            if property_silent(t, oo):
+                continue
+            if not G.member(o, t):
+                return p[0], o, t
+    return None
+
+
+_LIBN = [0]
+
+
+def spelling_stream(ctx, items, with_model=True):
+    """Metamorphic comparison: the same call against the same declared types written in every spelling x every callee form.
+    All verdicts (and inferred types) must agree with each other, with the model, and with the membership oracle."""
+    import ast, sys
+    if not items:
+        return
+    model = None
+    if with_model:
+        out = lean.run_driver("C06", [lean_line(c, call) for c, calls in items for call in calls])
+        model, k = {}, 0
+        for i, (c, calls) in enumerate(items):
+            for j in range(len(calls)):
+                model[(i, j)] = out[k]
+                k += 1
+    B = 12
+    for b0 in range(0, len(items), B):
+        batch = items[b0:b0 + B]
+        # ---- sources: library modules (plain / future), checked modules (plain / future)
+        _LIBN[0] += 1
+        tag = "%d_%d" % (os.getpid(), _LIBN[0])
+        names = set()
+        for c, _ in batch:
+            for p in c["params"]:
+                _leaf_names(p[3], names)
+            _leaf_names(c["ret"], names)
+        late = "".join("Late_%s = %s\n" % (n, n) for n in sorted(names))
+        aliases = {}
+        defs = {}   # (i, spelling) -> (header, ret)
+        for i, (c, _) in enumerate(batch):
+            for sp in SPELLINGS:
+                defs[(i, sp)] = (header_spelled(c["params"], sp, aliases), spell(c["ret"], sp, aliases))
+        # identical text as the plain spelling adds nothing: skip it
+        active = {(i, sp) for (i, sp) in defs if sp == "plain" or defs[(i, sp)] != defs[(i, "plain")]}
+        alias_src = "".join("%s = %s\n" % kv for kv in aliases.items())
+
+        def top_defs(sps, future):
+            lines = []
+            for i, (c, _) in enumerate(batch):
+                body = body_src(c["tmpl"])
+                for sp in sps:
+                    if not future and (i, sp) not in active:
+                        continue
+                    h, r = defs[(i, "plain" if future else sp)]
+                    lines += ["def f%d_%s(%s) -> %s:" % (i, sp, h, r), "    " + body]
+            return lines
+
+        def class_defs(sps, future):
+            lines = []
+            for i, (c, _) in enumerate(batch):
+                body = body_src(c["tmpl"])
+                for sp in sps:
+                    if not future and (i, sp) not in active:
+                        continue
+                    h, r = defs[(i, "plain" if future else sp)]
+                    hh = ", " + h if h else ""
+                    lines += ["class K%d_%s(A):" % (i, sp),
+                              "    def m(self%s) -> %s:" % (hh, r), "        " + body,
+                              "    @classmethod", "    def cm(cls%s) -> %s:" % (hh, r), "        " + body,
+                              "    @staticmethod", "    def sm(%s) -> %s:" % (h, r), "        " + body]
+            return lines
+
+        pre = PRELUDE + STRTV_DEFS
+        libs = {}
+        for future in (False, True):
+            sps = ["future"] if future else SPELLINGS
+            libname = "c06lib%s_%s" % ("f" if future else "", tag)
+            text = ("from __future__ import annotations\n" if future else "") + pre + alias_src + \
+                "\n".join(top_defs(sps, future)) + "\n" + late
+            with open(os.path.join(ctx.scratch, libname + ".py"), "w") as f:
+                f.write(text)
+            libs[future] = libname
+        if ctx.scratch not in sys.path:
+            sys.path.insert(0, ctx.scratch)
+        results = {}   # (i, j, spelling, form) -> line result
+        srcs = {}
+        for future in (False, True):
+            sps = ["future"] if future else SPELLINGS
+            src = (["from __future__ import annotations"] if future else []) + [pre.rstrip("\n"), alias_src.rstrip("\n"),
+                                                                              "import %s as L" % libs[future]]
+            src += top_defs(sps, future) + class_defs(sps, future)
+            src += late.rstrip("\n").split("\n") if late else []
+            src.append("def run() -> None:")
+            nested = []
+            for i, (c, _) in enumerate(batch):
+                body = body_src(c["tmpl"])
+                for sp in sps:
+                    if not future and (i, sp) not in active:
+                        continue
+                    h, r = defs[(i, "plain" if future else sp)]
+                    nested += ["    def n%d_%s(%s) -> %s:" % (i, sp, h, r), "        " + body]
+            src += nested
+            src = [x for x in src if x != ""]
+            base = sum(x.count("\n") + 1 for x in src)
+            index = []
+            for i, (c, calls) in enumerate(batch):
+                for j, call in enumerate(calls):
+                    args = call_src(call)
+                    for sp in sps:
+                        if not future and (i, sp) not in active:
+                            continue
+                        for form, callee in (("def", "f%d_%s" % (i, sp)), ("method", "K%d_%s().m" % (i, sp)),
+                                             ("classmethod", "K%d_%s.cm" % (i, sp)), ("staticmethod", "K%d_%s.sm" % (i, sp)),
+                                             ("nested", "n%d_%s" % (i, sp)), ("lib", "L.f%d_%s" % (i, sp))):
+                            src.append("    %s(%s)" % (callee, args))
+                            index.append((i, j, sp, form))
+            text = "\n".join(src) + "\n"
+            srcs[future] = text
+            fails, tree, mod = pya.check_source(text, annotate=True)
+            byline = {}
+            for f in fails:
+                if f["lineno"] is not None and f["lineno"] > base:
+                    byline.setdefault(f["lineno"] - base - 1, []).append(f)
+            runfn = next(n for n in tree.body if isinstance(n, ast.FunctionDef) and n.name == "run")
+            calls_ast = [st for st in runfn.body if isinstance(st, ast.Expr)]
+            for li, key in enumerate(index):
+                val = getattr(calls_ast[li].value, "inferred_value", None)
+                results[key] = line_result(byline.get(li, []), val)
+        # ---- compare
+        for i, (c, calls) in enumerate(batch):
+            lf = landing_fn(c["params"])
+            generic = bool(set().union(tvars_of(c["ret"]), *[tvars_of(p[3]) for p in c["params"]]))
+            for j, call in enumerate(calls):
+                case = {"def": callable_text(c), "call": "(%s)" % call_src(call),
+                        "callable": {"kind": c["kind"], "params": c["params"], "ret": c["ret"], "tmpl": c["tmpl"]},
+                        "calls": [call], "stream": "spelling"}
+                binds, land = py_landing(c["params"], lf, call)
+                ref_diag, silent = None, False
+                if binds and not generic:
+                    bads = []
+                    for p in c["params"]:
+                        for o in landed_objs(land[p[0]]):
+                            try:
+                                oo = V.py_to_obj(o)
+                            except V.Unencodable:
+                                oo = None
+                            if oo is not None and property_silent(p[3], oo):
+                                silent = True
+                            if not G.member(o, p[3]):
+                                bads.append(p[0])
+                    ref_diag = bool(bads)
+                upper = upper_violation(c, land) if (binds and generic) else None
+                m = mv_e2e = None
+                dcls = []
+                modelled = not unmodelled_call(c, call)
+                from_set = any(x[0] in ("set", "fset") for o in call[0] + [v for _, v in call[1]] +
+                               [p[2] for p in c["params"] if p[2] is not None] for x in subobjs(o))
+                cu = canon_unions if from_set else (lambda z: z)
+                if model is not None and model[(b0 + i, j)] != "bad-op":
+                    m = parse_model(model[(b0 + i, j)])
+                    dcls = [] if m["D"] == "-" else m["D"].split(",")
+                    mv = m["v"]
+                    mv_e2e = {"BIND": "CALL", "RESOLVE": "CALL"}.get(mv, mv)
+                    if mv.startswith("TVARG:"):
+                        mv_e2e = "OK:" + mv[6:]
+                    elif mv.startswith("OK:") and mv != "OK:":
+                        mv_e2e = "OK:" + ",".join(emitted(mv[3:].split(","), c["params"]))
+                variants = [(k_[2], k_[3], r) for k_, r in results.items() if k_[0] == i and k_[1] == j]
+                ref = next((r for sp, fm, r in variants if sp == "plain" and fm == "def"), None)
+                for sp, fm, r in variants:
+                    ctx.count(1, **{"spelling_" + sp: 1, "form_" + fm: 1})
+                    ctx.corr("spelling")
+                    vcase = dict(case, variant={"spelling": sp, "form": fm,
+                                                "header": defs[(i, "plain" if sp == "future" else sp)][0]})
+                    short = {"def": case["def"], "call": case["call"], "spelling": sp, "form": fm,
+                             "header": vcase["variant"]["header"]}
+                    conforms = True
+                    if ref is not None and (r["verdict"], cu(r["type"]), r["other"]) != (ref["verdict"], cu(ref["type"]), ref["other"]):
+                        ctx.disagree("spelling", short, {"verdict": r["verdict"], "type": r["type"], "other": r["other"],
+                                                         "msgs": r["msgs"]},
+                                     {"plain def": {"verdict": ref["verdict"], "type": ref["type"]}})
+                    if m is not None and modelled and (r["verdict"] != mv_e2e or r["other"] or cu(r["type"]) != cu(m["ret"])):
+                        conforms = False
+                        ctx.disagree("spelling", short, {"verdict": r["verdict"], "type": r["type"], "other": r["other"],
+                                                         "msgs": r["msgs"]}, {"model": m["v"], "ret": m["ret"]})
+                    diagnosed = r["verdict"].startswith("OK:") and r["verdict"] != "OK:"
+                    reported = r["verdict"] != "OK:" or bool(r["other"])
+                    if ref_diag is not None and not silent and r["verdict"] != "CALL" and not r["other"]:
+                        ctx.tag("P1_spelled")
+                        if diagnosed != ref_diag:
+                            wants = ["frozensetLiteral", "protoClassObj", "equalLiteralArgs"] if ref_diag else ["variadicTuple"]
+                            cls = next((w for w in wants if w in dcls), None)
+                            ctx.candidate(vcase, "call %s although %s (annotations spelled %s, callee form %s: %s)" % (
+                                "diagnosed (%s)" % r["verdict"] if diagnosed else "not diagnosed",
+                                "an argument is not a member of the declared type of its parameter" if ref_diag
+                                else "every argument is a member of the declared type of its parameter",
+                                sp, fm, vcase["variant"]["header"]), cls=cls, conforms=conforms, stream="P1")
+                    if upper is not None and not reported:
+                        ctx.candidate(vcase, "no error although argument %r of %s is not a member of %s, the declared type with every "
+                                      "type variable at its declared bound (annotations spelled %s, callee form %s: %s)"
+                                      % (upper[1], upper[0], ty_src(upper[2]), sp, fm, vcase["variant"]["header"]),
+                                      cls=None, conforms=conforms, stream="P4")
 
 
 # ------------------------------------------------------------------ the check
@@ -1121,6 +1496,14 @@ def evaluate(ctx, items, with_model=True):
                         ctx.candidate(dict(case, result=repr(res), inferred=r["type"]),
                                       "the call returns %r, which is not a member of the inferred type %s" % (res, r["type"]),
                                       cls=cls, conforms=conforms, stream="P2")
+                if binds and generic and not reported:
+                    up = upper_violation(c, land)
+                    ctx.tag("P4")
+                    if up is not None:
+                        ctx.candidate(case, "no error although argument %r of %s is not a member of %s, the declared type with "
+                                      "every type variable at its declared bound" % (up[1], up[0], ty_src(up[2])),
+                                      cls=next((w for w in ["frozensetLiteral", "protoClassObj", "equalLiteralArgs"] if w in dcls), None),
+                                      conforms=conforms, stream="P4")
                 if binds and generic and not reported and isinstance(r["sol"], dict):
                     ctx.tag("P3")
                     for p in c["params"]:
@@ -1147,17 +1530,30 @@ def translate(ctx):
     ctx.extra["class_table_regenerated"] = {"changed_on_disk": changed, "classes": len(tb["names"])}
 
 
+def spelling_items(ctx, items):
+    """The base cases of the spelling stream: the hand-picked ones, then plain callables drawn from the generated items."""
+    plain = [(c, calls) for c, calls in items if c["kind"] == "plain" and c["params"]]
+    k = min(len(plain), ctx.n(20, 220))
+    return spell_base() + (ctx.rng.sample(plain, k) if k else [])
+
+
 def run(ctx):
-    evaluate(ctx, corpus_items() + gen_items(ctx))
+    items = corpus_items() + gen_items(ctx)
+    evaluate(ctx, items)
+    spelling_stream(ctx, spelling_items(ctx, items))
 
 
 def run_impl_only(ctx):
-    evaluate(ctx, corpus_items() + gen_items(ctx), with_model=False)
+    items = corpus_items() + gen_items(ctx)
+    evaluate(ctx, items, with_model=False)
+    spelling_stream(ctx, spelling_items(ctx, items), with_model=False)
 
 
 def replay(ctx, data):
     item = item_from_json(data["case"])
     evaluate(ctx, [item])
+    if item[0]["kind"] == "plain":
+        spelling_stream(ctx, [item])
     print(json.dumps({"case": {k: data["case"].get(k) for k in ("def", "call")}, "candidates": ctx.candidates,
                       "broken": ctx.broken}, indent=1, default=str))
     return 1 if (ctx.candidates or ctx.broken) else 0
